@@ -292,6 +292,9 @@ def run(tier):
         core.tlc_must_pass(res, "MC_Implicit " + cfg)
         rep.add_tlc("MC_Implicit/" + cfg, res)
     rep.exhaustive = True
+    core.apalache_suite(rep, "Apa_Implicit", ["InvImplicitNoGrowth", "InvImplicitDamps", "InvCNNoGrowth", "InvCNUnitary", "InvCNGrowsRight"],
+                        "model level, beyond the grid: Apa_Implicit.tla proves with Apalache/Z3 that 1/(1-z) and (1+z/2)/(1-z/2) do "
+                        "not grow for ANY rational z with Re z <= 0 (strict damping / exact modulus on the imaginary axis)")
     rnd = random.Random(core.seed())
     recs = lin_cases(rep, rnd, tier) + amp_cases(rep, tier) + grow_cases(rep, rnd, tier) + jac_cases(rep, rnd, tier)
     for k, r in enumerate(recs):
